@@ -128,7 +128,7 @@ PROPS = {
                        "u8->char cast reaches token text. R73: every Token's pos comes from Position::from of an unconsumed clone of "
                        "the recogniser's input (59 sites). R74: WS/COMMENT never pushed to the output. R86 (exhaustive): escape table = "
                        "documented escapes. Not decided: column semantics for non-ASCII text (byte columns), token-stream equality "
-                       "across layouts as a whole; keyword-like prefixes of words (`truex`, `NULLx`) are noted, not claimed. Added later: R74l (no parser function compares token positions). R72 also decides that a count of characters is never used as a byte offset; R72s: the text handed to the tokenizer is the text read from the file, unmodified.",
+                       "across layouts as a whole; keyword-like prefixes of words (`truex`, `NULLx`) are noted, not claimed. Added later: R74l (no parser function compares token positions). R72 also decides that a count of characters is never used as a byte offset; R72s: the text handed to the tokenizer is the text read from the file, unmodified. R73c: the fields of OffsetStrIter that take part in line() / column() are fixed at construction (a counter of its own without a reset at a line break is reported, one with a reset is refused).",
         "assumptions": ["abortable_parser's text_token! consumes exactly the literal it is given"],
     },
     "C06": {
@@ -151,7 +151,7 @@ PROPS = {
                        "Shape variants have a path that does not return TypeErr), by per-variant path analysis; required: VM set "
                        "(mapped kind -> shape) is a subset of the checker set. R21a: map/filter/reduce targets; R21b: the forms the "
                        "translator lowers after `.` on a tuple / resolved import; R21c: copy bases and `not`. Not decided: "
-                       "completeness of the checker in general (value-level rules of narrow, e.g. `[1] + [\"a\"]`). Added later: R21b for partly known left shapes, R21h (F33 known), R21p (with_pos preserves variant and kind of knowledge), R25p (visit/leave pairing). Third session: R21a/R21c also require partly known shapes (Hole, Narrowed[Any], Narrowed[candidates]) to pass every dispatch (F45 fixed); R21s parameters are layered over the enclosing scope in FuncDef::derive_shape (F42 fixed); R21d every result-carrying sub-expression (select branches and default, func body, module out) flows into the derived shape (F44 fixed); R21n a callee's open parameter shapes are not narrowed in the caller's table (F43 known). R21q: with one candidate's comparison forced to a fitting shape and the others unknown, narrow_cached builds no TypeErr (evaluated; one fitting candidate is enough). R21m: merge_in_shape drops an incoming select candidate only when Shape::equivalent (one-directional on tuples) holds both ways (F46). R21e: with is_empty() answering true, an empty candidate list on either side of narrow never reaches the candidate comparison (evaluated).",
+                       "completeness of the checker in general (value-level rules of narrow, e.g. `[1] + [\"a\"]`). Added later: R21b for partly known left shapes, R21h (F33 known), R21p (with_pos preserves variant and kind of knowledge), R25p (visit/leave pairing). Third session: R21a/R21c also require partly known shapes (Hole, Narrowed[Any], Narrowed[candidates]) to pass every dispatch (F45 fixed); R21s parameters are layered over the enclosing scope in FuncDef::derive_shape (F42 fixed); R21d every result-carrying sub-expression (select branches and default, func body, module out) flows into the derived shape (F44 fixed); R21n a callee's open parameter shapes are not narrowed in the caller's table (F43 known). R21q: with one candidate's comparison forced to a fitting shape and the others unknown, narrow_cached builds no TypeErr (evaluated; one fitting candidate is enough). R21m: merge_in_shape drops an incoming select candidate only when Shape::equivalent (one-directional on tuples) holds both ways (F46). R21e: with is_empty() answering true, an empty candidate list on either side of narrow never reaches the candidate comparison (evaluated). R21f: with the target of map / filter / reduce forced to a shape of unknown kind and the callback a function of unknown arity, no TypeErr is built (evaluated).",
         "assumptions": ["runtime kind -> Shape variant map of impl DeriveShape for Value (List->List, Tuple->Tuple, Str->Str)"],
     },
     "C17": {
@@ -220,7 +220,7 @@ PROPS = {
                        "else; analyze cannot see the documents map. R42: analyze uses the compiler's tokenize and parse, exactly one "
                        "diagnostic per front-end error from the error's own position. R89: provenance of everything written into the "
                        "workspace cache. Not decided: range containment (UTF-16 vs byte columns), equality of diagnostics with a fresh "
-                       "server as values, messages with malformed parameters (they end the server with an error, outside the quantifier). Added later: R41 for the workspace index (every update replaces the entry), R76x (F40 known). R89t: topo_sort_files marks a file visited when its stack entry is expanded, not when it is queued, and emits it when the entry comes back (necessary for dependencies to be analysed before their importers).",
+                       "server as values, messages with malformed parameters (they end the server with an error, outside the quantifier). Added later: R41 for the workspace index (every update replaces the entry), R76x (F40 known). R89t: topo_sort_files marks a file visited when its stack entry is expanded, not when it is queued, and emits it when the entry comes back (necessary for dependencies to be analysed before their importers). R42p: if a record of the diagnostics last sent is kept, every place that builds a PublishDiagnosticsParams updates it (a send that bypasses the record leaves it ahead of the client).",
         "assumptions": ["lsp-server / lsp-types / serde_json do not panic on well-formed messages"],
     },
 }
